@@ -56,6 +56,20 @@ contract(FC + "::CellCycleController.release_resource", "C15",
          callsite_pre={"remove_all_for_agent": {"keeps-edges-of-operations-waiting-on-other-resources-of-the-releaser": "False"}},
          ensures={})
 
+# the other half of exactness for a release: once the releaser has given the resource back, nobody is recorded as waiting on the releaser for it
+# (a stale edge makes detect_cycle report deadlocks that are not there).  Uses the ASSUMED contract of remove_all_for_agent.
+contract(FT + "::DependencyGraph.remove_all_for_agent", "C15", ghost_params=TRIPLE, raises=[], inline=False, returns="none", modifies=["self.edges"],
+         options={"assumed": "remove_all_for_agent(a) removes exactly the wait-for triples that mention a as waiter or as blocker "
+                             "(its loops over dict keys with tuple-unpacking filters are outside the engine's list abstraction; validated by the bounded stand-in)"},
+         ghost_instances=[{"b0": "agent"}],
+         ensures={"removes-exactly-the-agents-triples": "in_view(self, w0, b0, r0) == (in_view(old(self), w0, b0, r0) and w0 != agent and b0 != agent)"})
+contract(FC + "::CellCycleController.release_resource", "C15", variant="no-stale-edge",
+         params={"ctx": "obj:OperationContext"}, ghost_params=TRIPLE,
+         pre_state={"alias_values": {"ctx.acquired_resources": "self.resources"}},
+         callbacks={"ResourceLock._add_to_waiting": {"returns": "none", "raises": ()}}, raises=[],
+         options={"callee_instances": {"DependencyGraph.remove_all_for_agent": [{"b0": "ctx.operation_id", "r0": "resource_id"}]}},
+         ensures={"released-resource-has-no-recorded-waiter": "implies(result, not in_view(self.dependency_graph, w0, ctx.operation_id, resource_id))"})
+
 
 # ---------------------------------------------------------------- the DFS of detect_cycle: stack discipline (the nested closure is the target)
 # What is proved: a search that reports nothing leaves `path` and `rec_stack` exactly as it found them (so a later search cannot see stale
@@ -88,7 +102,7 @@ def native_replay(rep):
     import os, sys
     sys.path.insert(0, os.path.dirname(os.path.dirname(os.path.abspath(__file__))))
     from native import c15_bounded
-    n, bad, seen = c15_bounded.search(5)
+    n, bad, seen = c15_bounded.search(4)
     if bad is None:
         return {"confirmed": False, "observed": f"no unlisted disagreement among {n} histories"}
     return {"confirmed": True, "observed": bad, "found_by": f"bounded history enumeration ({n} histories)"}
